@@ -23,7 +23,9 @@ CONSTANTS
   TwoPart,      \* heights whose block has two parts (others: one)
   ValChg,       \* heights whose EndBlock changes the validator set (in force from h + 2)
   ParChg,       \* heights whose EndBlock changes the consensus params (in force from h + 1)
-  MaxCrashes, MaxPrunes
+  MaxCrashes, MaxPrunes,
+  Weak_RecoveryDropsParamUpdates   \* the restart path (Handshaker, mock application answering from the
+                                   \*   persisted ABCI responses) loses EndBlock.ConsensusParamUpdates
 
 VARIABLES
   disk,      \* both databases
@@ -31,8 +33,10 @@ VARIABLES
   pend,      \* steps of the operation in progress still to be executed
   ctx,       \* [op, a, b, due, done]: operation in progress / last finished; due = 1: PruneStates owed
   crashes, prunes,
+  stale,     \* heights whose consensus-param update never reached the persisted State (only with
+             \*   Weak_RecoveryDropsParamUpdates; conceptually a part of the persisted State record)
   act        \* name of the last action (for the replay drivers)
-vars == <<disk, mem, pend, ctx, crashes, prunes, act>>
+vars == <<disk, mem, pend, ctx, crashes, prunes, stale, act>>
 
 Lo == IF Boot > 0 THEN Boot - 1 ELSE Initial - 1
 Hi == MaxHeight + 2
@@ -49,7 +53,8 @@ Cfg == [lo |-> Lo, hi |-> Hi, initial |-> Initial, boot |-> Boot, batch |-> Batc
 \* State.LastHeightValidatorsChanged / LastHeightConsensusParamsChanged of the state after
 \* block lbh (state/execution.go updateState; statesync/stateprovider.go for a restored state)
 LHVC(lbh) == SetMax({IF Boot > 0 THEN Boot + 2 ELSE Initial} \cup {c + 2 : c \in {x \in ValChg : x <= lbh}})
-LHPC(lbh) == SetMax({IF Boot > 0 THEN Boot + 1 ELSE Initial} \cup {c + 1 : c \in {x \in ParChg : x <= lbh}})
+LHPCx(lbh, st) == SetMax({IF Boot > 0 THEN Boot + 1 ELSE Initial} \cup {c + 1 : c \in {x \in ParChg \ st : x <= lbh}})
+LHPC(lbh) == LHPCx(lbh, stale)
 
 Idle0 == [op |-> "none", a |-> 0, b |-> 0, due |-> 0, done |-> TRUE]
 
@@ -58,7 +63,7 @@ Init ==
   /\ mem = [base |-> 0, height |-> 0]
   /\ pend = << >>
   /\ ctx = Idle0
-  /\ crashes = 0 /\ prunes = 0
+  /\ crashes = 0 /\ prunes = 0 /\ stale = {}
   /\ act = [name |-> "Init"]
 
 Idle == pend = << >> /\ ctx.due = 0
@@ -75,25 +80,41 @@ Begin(op, a, b, r, due) ==
 Genesis ==
   /\ Idle /\ disk.state = -1 /\ Boot = 0
   /\ Begin("Genesis", 0, 0, SaveSteps(Cfg, 0, Initial, Initial), 0)
-  /\ UNCHANGED prunes
+  /\ UNCHANGED <<prunes, stale>>
 
 \* Bootstrap(state) followed by SaveSeenCommit(state.LastBlockHeight, commit)
 Bootstrap ==
   /\ Idle /\ disk.state = -1 /\ Boot > 0
   /\ Begin("Bootstrap", Boot, 0,
            [steps |-> BootstrapSteps(Cfg, Boot, Boot + 1).steps \o SaveSeenCommitSteps(Boot).steps, res |-> "ok"], 0)
-  /\ UNCHANGED prunes
+  /\ UNCHANGED <<prunes, stale>>
 
 SaveBlock ==
   /\ Idle /\ disk.state >= 0 /\ mem.height < NextH /\ NextH <= MaxHeight
   /\ Begin("SaveBlock", NextH, 0, SaveBlockSteps(Cfg, mem, NextH), 0)
-  /\ UNCHANGED prunes
+  /\ UNCHANGED <<prunes, stale>>
 
+\* state/execution.go ApplyBlock with the real application (first time, or on restart when the
+\* application has not committed the block yet)
 ApplyBlock ==
   /\ Idle /\ disk.state >= 0 /\ mem.height = NextH
   /\ Begin("ApplyBlock", NextH, 0,
            [steps |-> SaveABCISteps(NextH).steps \o SaveSteps(Cfg, NextH, LHVC(NextH), LHPC(NextH)).steps,
             res |-> "ok"], 0)
+  /\ UNCHANGED <<prunes, stale>>
+
+\* restart after a crash between the application's Commit of block NextH and stateStore.Save
+\* (the responses of NextH are the last persisted ones): consensus/replay.go ReplayBlocks, case
+\* app = store = state + 1, applies the stored block through newMockProxyApp, which answers from
+\* LoadLastABCIResponse.  Same writes as ApplyBlock - provided the stored responses are replayed in full.
+Recover ==
+  /\ Idle /\ disk.state >= 0 /\ mem.height = NextH
+  /\ disk.lastabci = NextH /\ ctx.op = "crashed"
+  /\ LET st2 == IF Weak_RecoveryDropsParamUpdates /\ NextH \in ParChg THEN stale \cup {NextH} ELSE stale IN
+       /\ stale' = st2
+       /\ Begin("Recover", NextH, 0,
+                [steps |-> SaveABCISteps(NextH).steps \o SaveSteps(Cfg, NextH, LHVC(NextH), LHPCx(NextH, st2)).steps,
+                 res |-> "ok"], 0)
   /\ UNCHANGED prunes
 
 \* consensus/state.go pruneBlocks(retain): only if retain > base
@@ -102,11 +123,12 @@ PruneBlocks ==
   /\ \E r \in mem.base + 1 .. mem.height :
        Begin("PruneBlocks", r, mem.base, PruneBlocksSteps(Cfg, disk, mem, r), 1)
   /\ prunes' = prunes + 1
+  /\ UNCHANGED stale
 
 PruneStates ==
   /\ pend = << >> /\ ctx.due = 1
   /\ Begin("PruneStates", ctx.b, ctx.a, PruneStatesSteps(Cfg, disk, ctx.b, ctx.a), 0)
-  /\ UNCHANGED prunes
+  /\ UNCHANGED <<prunes, stale>>
 
 Step ==
   /\ pend # << >>
@@ -116,7 +138,7 @@ Step ==
   /\ pend' = Tail(pend)
   /\ ctx' = [ctx EXCEPT !.done = Len(pend) = 1]
   /\ act' = [name |-> "Step"]
-  /\ UNCHANGED <<crashes, prunes>>
+  /\ UNCHANGED <<crashes, prunes, stale>>
 
 Crash ==
   /\ pend # << >> \/ ctx.due = 1
@@ -126,9 +148,9 @@ Crash ==
   /\ ctx' = [Idle0 EXCEPT !.op = "crashed"]
   /\ crashes' = crashes + 1
   /\ act' = [name |-> "Crash"]
-  /\ UNCHANGED <<disk, prunes>>
+  /\ UNCHANGED <<disk, prunes, stale>>
 
-Next == Genesis \/ Bootstrap \/ SaveBlock \/ ApplyBlock \/ PruneBlocks \/ PruneStates \/ Step \/ Crash
+Next == Genesis \/ Bootstrap \/ SaveBlock \/ ApplyBlock \/ Recover \/ PruneBlocks \/ PruneStates \/ Step \/ Crash
 Spec == Init /\ [][Next]_vars
 
 \* ------------------------------------------------------------------ properties
